@@ -5,8 +5,10 @@ import (
 	"os"
 	"path/filepath"
 	"regexp"
+	"strconv"
 	"strings"
 	"testing"
+	"time"
 
 	"github.com/robfig/soy/ast"
 	"github.com/robfig/soy/parse"
@@ -24,6 +26,144 @@ type C05Case struct {
 	Input []byte `json:"input"` // raw bytes (base64 in JSON)
 	Show  string `json:"show"`  // the same, quoted, for the reader
 	From  string `json:"from"`  // which generator family produced it
+	// Stretch, when set, replaces Input by a family of inputs of growing size (the "time proportional
+	// to the input" clause): Pre + Unit*k + Mid + Close*k + Post, parsed at k = K and k = 8K.
+	Stretch *C05Stretch `json:"stretch,omitempty"`
+}
+
+type C05Stretch struct {
+	Name  string `json:"name"`
+	Pre   string `json:"pre"`
+	Unit  string `json:"unit"`
+	Mid   string `json:"mid,omitempty"`
+	Close string `json:"close,omitempty"`
+	Post  string `json:"post"`
+	K     int    `json:"k"`
+	Level int    `json:"level"` // wrapLevel of the stretched text; -1: the text is the whole file
+}
+
+func (s *C05Stretch) input(k int) string {
+	body := s.Pre + strings.Repeat(s.Unit, k) + s.Mid + strings.Repeat(s.Close, k) + s.Post
+	if s.Level < 0 {
+		return body
+	}
+	return wrapLevel(s.Level, body, true)
+}
+
+// c05Stretches: one entry per scanning / parsing loop that walks a run of input.
+var c05Stretches = []C05Stretch{
+	{Name: "string, escape at the end", Pre: "{'", Unit: "a", Post: "\\n'}", Level: 1},
+	{Name: "string, escapes throughout", Pre: "{'", Unit: "\\n", Post: "'}", Level: 1},
+	{Name: "string, non-ASCII then escape", Pre: "{'", Unit: "é", Post: "\\t'}", Level: 1},
+	{Name: "string without escapes", Pre: "{'", Unit: "ab", Post: "'}", Level: 1},
+	{Name: "quoted attribute expression", Pre: "{call .t data=\"$x", Unit: ".a", Post: "\"/}", Level: 1},
+	{Name: "msg description", Pre: "{msg desc=\"", Unit: "d ", Post: "\"}m{/msg}", Level: 1},
+	{Name: "text", Unit: "word ", Level: 1},
+	{Name: "text with line breaks", Unit: "a\n  ", Level: 1},
+	{Name: "text with tags and line breaks", Unit: "<b>\n", Level: 1},
+	{Name: "text with CR LF", Unit: "a\r\n", Level: 1},
+	{Name: "white space", Unit: "\n \t", Post: "x", Level: 1},
+	{Name: "invalid UTF-8 text", Unit: "\xff", Level: 1},
+	{Name: "sum", Pre: "{$x", Unit: " + 1", Post: "}", Level: 1},
+	{Name: "key chain", Pre: "{$x", Unit: ".a", Post: "}", Level: 1},
+	{Name: "index chain", Pre: "{$x", Unit: "[0]", Post: "}", Level: 1},
+	{Name: "null-safe chain", Pre: "{$x", Unit: "?.a", Post: "}", Level: 1},
+	{Name: "list literal", Pre: "{[", Unit: "1, ", Post: "1]}", Level: 1},
+	{Name: "map literal", Pre: "{[", Unit: "'k': 1, ", Post: "'z': 2]}", Level: 1},
+	{Name: "function arguments", Pre: "{f(", Unit: "1, ", Post: "1)}", Level: 1},
+	{Name: "call params", Pre: "{call .t}", Unit: "{param a: 1 /}", Post: "{/call}", Level: 1},
+	{Name: "call params with layout", Pre: "{call .t}\n", Unit: "  {param a: 1 /}\n", Post: "{/call}", Level: 1},
+	{Name: "block comment", Pre: "/*", Unit: "x", Post: "*/", Level: 1},
+	{Name: "block comment of stars", Pre: "/*", Unit: "*", Post: "*/", Level: 1},
+	{Name: "line comment", Pre: " //", Unit: "x", Post: "\n", Level: 1},
+	{Name: "many line comments", Unit: " // c\n", Level: 1},
+	{Name: "soydoc params", Pre: "{namespace ns}\n/**\n", Unit: " * @param x\n", Post: " */\n{template .t}{$x}{/template}\n", Level: -1},
+	{Name: "literal block", Pre: "{literal}", Unit: "x{", Post: "{/literal}", Level: 1},
+	{Name: "css name", Pre: "{css ", Unit: "a", Post: "}", Level: 1},
+	{Name: "msg body", Pre: "{msg desc=\"d\"}", Unit: "word <b>x</b> {$x} ", Post: "{/msg}", Level: 1},
+	{Name: "directive chain", Pre: "{$x", Unit: "|id", Post: "}", Level: 1},
+	{Name: "directive argument", Pre: "{$x|truncate:", Unit: "1+", Post: "1}", Level: 1},
+	{Name: "nested parentheses", Pre: "{", Unit: "(", Mid: "1", Close: ")", Post: "}", Level: 1},
+	{Name: "nested lists", Pre: "{", Unit: "[", Mid: "1", Close: "]", Post: "}", Level: 1},
+	{Name: "nested if blocks", Unit: "{if $x}", Mid: "y", Close: "{/if}", Level: 1},
+	{Name: "nested loops", Unit: "{foreach $i in $x}", Mid: "y", Close: "{/foreach}", Level: 1},
+	{Name: "ternary chain", Pre: "{$x", Unit: " ? 1 : $x", Post: "}", Level: 1},
+	{Name: "elvis chain", Pre: "{$x", Unit: " ?: $x", Post: "}", Level: 1},
+	{Name: "not chain", Pre: "{", Unit: "not ", Post: "$x}", Level: 1},
+	{Name: "minus chain", Pre: "{", Unit: "- ", Post: "1}", Level: 1},
+	{Name: "header param type", Pre: "{@param y: ", Unit: "a|", Post: "b}{$y}", Level: 1},
+	{Name: "switch cases", Pre: "{switch $x}", Unit: "{case 1}a", Post: "{/switch}", Level: 1},
+	{Name: "case values", Pre: "{switch $x}{case ", Unit: "1, ", Post: "1}a{/switch}", Level: 1},
+	{Name: "if branches", Pre: "{if $x}a", Unit: "{elseif $x}b", Post: "{/if}", Level: 1},
+	{Name: "digits", Pre: "{", Unit: "1", Post: "}", Level: 1},
+	{Name: "hex digits", Pre: "{0x", Unit: "F", Post: "}", Level: 1},
+	{Name: "fraction digits", Pre: "{1.", Unit: "5", Post: "}", Level: 1},
+	{Name: "identifier", Pre: "{$", Unit: "a", Post: "}", Level: 1},
+	{Name: "global name", Pre: "{", Unit: "a.", Post: "b}", Level: 1},
+	{Name: "print commands", Unit: "{$x}", Level: 1},
+	{Name: "special character commands", Unit: "{sp}{\\n}", Level: 1},
+	{Name: "templates", Pre: "{namespace ns}\n", Unit: "/** */\n{template .t}x{/template}\n", Level: -1},
+	{Name: "aliases", Pre: "{namespace ns}\n", Unit: "{alias a.b}\n", Post: "/** */\n{template .t}x{/template}\n", Level: -1},
+	{Name: "unterminated string", Pre: "{'", Unit: "a", Level: 1},
+	{Name: "unterminated comment", Pre: "/*", Unit: "x", Level: 1},
+	{Name: "unterminated literal", Pre: "{literal}", Unit: "x", Level: 1},
+	{Name: "error after a long text", Unit: "word ", Post: "{if}", Level: 1},
+	{Name: "stray brace after a long text", Unit: "word\n", Post: "}", Level: 1},
+	{Name: "expression: sum", Unit: "1 + ", Post: "1", Level: -2},
+	{Name: "expression: string with a late escape", Pre: "'", Unit: "a", Post: "\\n'", Level: -2},
+	{Name: "expression: list", Pre: "[", Unit: "1,", Post: "1]", Level: -2},
+	{Name: "expression: arguments", Pre: "f(", Unit: "1,", Post: "1)", Level: -2},
+	{Name: "expression: key chain", Pre: "$x", Unit: ".a", Level: -2},
+	{Name: "expression: trailing tokens", Pre: "1", Unit: " 2", Level: -2},
+	{Name: "expression: nested parentheses", Unit: "(", Mid: "1", Close: ")", Level: -2},
+}
+
+// parseTime is the shortest of reps timed parses of in.
+func parseTime(kind, in string, reps int) time.Duration {
+	best := time.Duration(1 << 62)
+	c := C05Case{Kind: kind, Input: []byte(in)}
+	for i := 0; i < reps; i++ {
+		t0 := time.Now()
+		doParse(c)
+		if d := time.Since(t0); d < best {
+			best = d
+		}
+	}
+	return best
+}
+
+// checkStretch judges the "time proportional to the input" clause on one family of inputs: the
+// input grown eightfold may take at most 20 times as long (8 is proportional; 64 is quadratic). Only
+// runs that take longer than 0.2 s are judged, and a suspicion is measured again before it is
+// reported, so a busy machine cannot raise the alarm.
+func checkStretch(c C05Case) Verdict {
+	s := c.Stretch
+	kind := "file"
+	if s.Level == -2 {
+		kind = "expr"
+		s2 := *s
+		s2.Level = -1
+		s = &s2
+	}
+	small, big := s.input(s.K), s.input(8*s.K)
+	var t1, t8 time.Duration
+	slow := false
+	if !finishes(6*watchdogLimit(), func() {
+		for round := 0; round < 3; round++ {
+			t1, t8 = parseTime(kind, small, 3), parseTime(kind, big, 2+round)
+			slow = t8 > 200*time.Millisecond && t8 > 20*t1
+			if !slow {
+				return
+			}
+		}
+	}) {
+		hangExit("C05", c, fmt.Sprintf("parses of the stretch %q (%d and %d bytes)", s.Name, len(small), len(big)))
+	}
+	if slow {
+		return bad(true, "parse time is not proportional to the input for the stretch %q (%q + %q x k + %q%q x k + %q): %d bytes take %v, %d bytes take %v (x%.0f for x8 input)",
+			s.Name, s.Pre, s.Unit, s.Mid, s.Close, s.Post, len(small), t1, len(big), t8, float64(t8)/float64(t1))
+	}
+	return ok(true, "family:stretch")
 }
 
 func mkC05(kind, from, in string) C05Case {
@@ -52,6 +192,24 @@ var tagDict = []string{
 	// letters, digits and spaces outside ASCII (the scanner classifies runes with the unicode tables in places)
 	"{-٣}", "{٣}", "{$x.٣}", "{$x?.३}", "{３ + 1}", "{$é}", "{é}", "{$x.é}", "{Ⅷ}", "{x²}", "{$a\u00a0+ 1}", "{$a\u2003}", "{\u00a0}", "{if $x > -٣}", "{$x|é}", "{call .é /}", "{let $é: 1 /}", "{@param é: ?}", "{namespace é}",
 }
+
+// attrDict: tags with quoted attributes x hostile attribute values (names, expressions and options
+// that are handed to a second scanner or parsed by hand).
+var attrDict = func() []string {
+	tags := []string{`{call name="%s"/}`, `{call .t data="%s"/}`, `{call name="%s" data="all"}{/call}`, `{param key="%s" value="1"/}`, `{param key="a" value="%s"/}`, `{param key="%s"}x{/param}`,
+		`{msg desc="%s"}m{/msg}`, `{msg desc="d" meaning="%s"}m{/msg}`, `{template .t autoescape="%s"}`, `{namespace a autoescape="%s"}`, `{template .t private="%s"}`, `{let $v kind="%s"}x{/let}`, `{css %s, b}`, `{css $x, %s}`}
+	vals := []string{"", "foo bar", ".b-c.d", "$x .y", "$a $b", "1 +", `a\"b`, "all", "$x", "'s' 't' 'u'", "(1", "1 2 3 4", "\n", "é", "$x |", "}", "{", "a.b.c", ".t", "true", "x y z", "#", "@ @", "1 # 2 3", "f(1, 2) 3 4", "$x 'unterminated", "[1, 2 3"}
+	var out []string
+	for _, t := range tags {
+		for _, v := range vals {
+			out = append(out, strings.Replace(t, "%s", v, 1))
+		}
+	}
+	return out
+}()
+
+// tagDictAll is what the random families draw from.
+var tagDictAll = append(append([]string{}, tagDict...), attrDict...)
 
 // exprDict is the expression token dictionary for parse.Expr.
 var exprDict = []string{"1", "-1", "0x1F", "1.5", "2e3", "1e", "'s'", "'\\u00e9'", "'\\x'", "'", "\"", "null", "true", "$x", "$x.y", "$x?.y", "$x[0]", "$x?[", "$ij.a", "$", "a.b", "f(", "f(1)", ")", "(", "[", "]", "[:]", ":", ",", "?", "?:", "+", "-", "*", "/", "%", "<", "<=", "==", "!=", "!", "=", "and", "or", "not", "|", "}", "{", " ", "\n", "é", "\x00", "\xff", ".", ".5", "1.", "1 2 3", "@", "@param", "//", "/*", "٣", "-٣", "３", ".٣", "é", "$é", "Ⅷ", "²", "\u00a0", "\u2003", "-", "- ", "--"}
@@ -95,7 +253,40 @@ func wrapLevel(level int, body string, closeIt bool) string {
 	return s
 }
 
+// stretchPercent of the generated cases are random stretches (dictionary fragments as prefix, unit and suffix).
+var stretchPercent = func() int {
+	if n, err := strconv.Atoi(os.Getenv("VERIF_C05_STRETCH_PCT")); err == nil {
+		return n
+	}
+	return 3
+}()
+
 func genC05(t *rapid.T) C05Case {
+	if rapid.IntRange(0, 99).Draw(t, "stretch") >= 100-stretchPercent {
+		st := C05Stretch{Name: "random", Level: rapid.IntRange(-1, 2).Draw(t, "level")}
+		frag := func(label string) string {
+			if rapid.Bool().Draw(t, label+"-expr") {
+				return "{" + rapid.SampledFrom(exprDict).Draw(t, label) + rapid.SampledFrom(exprDict).Draw(t, label+"2")
+			}
+			return rapid.SampledFrom(tagDictAll).Draw(t, label)
+		}
+		if rapid.Bool().Draw(t, "pre") {
+			st.Pre = frag("prefix")
+		}
+		st.Unit = frag("unit")
+		if rapid.IntRange(0, 3).Draw(t, "unit2") == 0 {
+			st.Unit = rapid.SampledFrom(exprDict).Draw(t, "tok") + " "
+		}
+		if rapid.Bool().Draw(t, "post") {
+			st.Post = rapid.SampledFrom(tagDictAll).Draw(t, "suffix")
+		}
+		if rapid.IntRange(0, 4).Draw(t, "nested") == 0 {
+			st.Close = rapid.SampledFrom([]string{")", "]", "}", "{/if}", "{/foreach}", "{/let}", "{/param}", "{/call}", "{/msg}", "{/switch}", "{/literal}", "*/", "'"}).Draw(t, "close")
+			st.Mid = rapid.SampledFrom([]string{"", "1", "x", "{$x}"}).Draw(t, "mid")
+		}
+		st.K = stretchK(&st)
+		return C05Case{Kind: "stretch", From: "stretch", Show: fmt.Sprintf("%q + %q x k + %q%q x k + %q", st.Pre, st.Unit, st.Mid, st.Close, st.Post), Stretch: &st}
+	}
 	switch rapid.IntRange(0, 9).Draw(t, "family") {
 	case 0: // prefix of a repository template
 		c := rapid.SampledFrom(validCorpus()).Draw(t, "file")
@@ -110,7 +301,7 @@ func genC05(t *rapid.T) C05Case {
 		n := rapid.IntRange(1, scale(4, 6)).Draw(t, "n")
 		var b strings.Builder
 		for i := 0; i < n; i++ {
-			b.WriteString(rapid.SampledFrom(tagDict).Draw(t, "frag"))
+			b.WriteString(rapid.SampledFrom(tagDictAll).Draw(t, "frag"))
 		}
 		return mkC05("file", "tag-dictionary", wrapLevel(rapid.IntRange(0, 2).Draw(t, "level"), b.String(), rapid.Bool().Draw(t, "close")))
 	case 4, 5: // token mutation of a valid file
@@ -131,7 +322,7 @@ func genC05(t *rapid.T) C05Case {
 				b := rapid.IntRange(0, len(toks)-1).Draw(t, "b")
 				toks[a], toks[b] = toks[b], toks[a]
 			case 3:
-				toks[a] = rapid.SampledFrom(tagDict).Draw(t, "frag")
+				toks[a] = rapid.SampledFrom(tagDictAll).Draw(t, "frag")
 			}
 		}
 		return mkC05("file", "token-mutation", strings.Join(toks, ""))
@@ -192,6 +383,9 @@ const (
 )
 
 func checkC05(c C05Case) Verdict {
+	if c.Stretch != nil {
+		return checkStretch(c)
+	}
 	var o parseOutcome
 	if !finishes(watchdogLimit(), func() { o = doParse(c) }) {
 		hangExit("C05", c, fmt.Sprintf("parse.%s of %s", c.Kind, c.Show))
@@ -290,6 +484,14 @@ func c05Exhaustive(rec *recorder, t *testing.T) bool {
 			}
 		}
 	}
+	for level := 0; level < 3; level++ {
+		for _, a := range attrDict {
+			n++
+			if !run(mkC05("file", "tag-dictionary", wrapLevel(level, a, n%2 == 0))) {
+				return false
+			}
+		}
+	}
 	for _, a := range exprDict {
 		for _, b := range exprDict {
 			n += 2
@@ -321,5 +523,36 @@ func TestC05(t *testing.T) {
 			return
 		}
 	}
+	if (shard() == "1" || os.Getenv("VERIF_NSHARDS") == "1") && os.Getenv("VERIF_REPLAY") == "" && os.Getenv("VERIF_CORPUS_ONLY") == "" {
+		rec := newRecorder("C05s")
+		for i := range c05Stretches {
+			st := c05Stretches[i]
+			st.K = stretchK(&st)
+			c := C05Case{Kind: "stretch", From: "stretch", Show: st.Name, Stretch: &st}
+			writeCurrent("C05", c)
+			histLog(c)
+			v := checkC05(c)
+			rec.record(c, v)
+			if v.Err != nil {
+				writeFail("C05", c, v.Err)
+				rec.flush()
+				t.Fatalf("stretch tier: %v", v.Err)
+			}
+		}
+		rec.add("stretch_families", len(c05Stretches))
+		rec.flush()
+	}
 	runPropCrashy(t, "C05", genC05, checkC05)
+}
+
+// stretchK sizes a stretch so that the smaller input has about 24 kB (nested forms: at most 1500 levels).
+func stretchK(s *C05Stretch) int {
+	k := 24000 / (len(s.Unit) + len(s.Close))
+	if s.Close != "" && k > scale(1500, 3000) {
+		k = scale(1500, 3000)
+	}
+	if k < 10 {
+		k = 10
+	}
+	return k
 }
